@@ -865,8 +865,11 @@ SPEC = {
     'compare': compare,
     'classify': classify,
     'partial_note': 'rung 1 and rung 2 complete (every spelling of every object incl. fillers in composites, indirect objects, trailer; the two open '
-                    'findings excluded by their classes), rung 3 proved for the cross-reference table format (C02_loads_table_partial), '
-                    'stated for cross-reference streams / object streams / indirect Length (C02_full)',
+                    'findings excluded by their classes); rung 3 proved for whole files with a cross-reference table (Length direct or a reference), '
+                    'with a cross-reference stream of any W / Index, and with any filter chain of the reference writer on it (Flate stored blocks, '
+                    'ASCII85, ASCIIHex, PNG predictor) against LoaderExt.load_ext on the Gallina decoders; object streams and the deferred Length '
+                    'path proved at the level of their pieces (C02_objstm_any_spelling, C02_length_ref_*); not proved: whole files with object '
+                    'streams, multi-section files (Prev), C02_full as stated',
     'rule': '(style, abstract document) pairs: 1-12 objects of every kind nested to depth 3 with adversarial bytes in names and strings, '
             'streams with direct or indirect Length; styles randomise fillers (6 white-space bytes, comments with every EOL), name escapes, '
             'literal/hex string spellings (octal 1-3 digits, short escapes, ignored backslash, continuations, raw EOLs, hex white-space, odd '
